@@ -33,11 +33,31 @@ def main():
     os.environ["VERIF_TIER_EFFECTIVE"] = tier
     os.environ["VERIF_TIER"] = tier
     mod = importlib.import_module("vlib.props." + pid.lower())
-    plan = mod.plan(tier)
     run = core.Run(pid, tier)
-    run.log("== %s tier=%s : %d E1 conditions, %d E2 obligations (sources regenerated from %s)"
-            % (pid, tier, len(plan["conds"]), len(plan["obls"]), core.SRC))
-    run.execute(plan["conds"], plan["obls"])
+    if tier == "thorough":
+        # phase 1 ("floor"): the quick plan, strict -- every condition must be exhausted
+        os.environ["VERIF_TIER_EFFECTIVE"] = os.environ["VERIF_TIER"] = "quick"
+        floor = mod.plan("quick")
+        run.log("== %s tier=thorough phase 1 (floor = quick plan, strict): %d E1 conditions, %d E2 obligations (sources regenerated from %s)"
+                % (pid, len(floor["conds"]), len(floor["obls"]), core.SRC))
+        run.execute(floor["conds"], floor["obls"])
+        run.judge()
+        os.environ["VERIF_TIER_EFFECTIVE"] = os.environ["VERIF_TIER"] = "thorough"
+        if core.ABORT.is_set():
+            return run.finish(floor["meta"])
+    plan = mod.plan(tier)
+    conds, obls = plan["conds"], plan["obls"]
+    if tier == "thorough":
+        # phase 2 ("deep"): wider bounds; per-condition budgets are scaled so that the phase fits the wall budget; a condition whose
+        # path tree is not exhausted in its budget is reported as PARTIAL (explored part held), never as confirmed
+        wall = float(os.environ.get("VERIF_THOROUGH_WALL", "900"))
+        tot = sum(c.timeout for c in conds) + sum(o.timeout for o in obls)
+        scale = min(1.0, wall * core.JOBS / max(tot, 1.0))
+        for x in conds + obls:
+            x.timeout = max(60.0 if x in conds else 120.0, round(x.timeout * scale))
+    run.log("== %s tier=%s%s : %d E1 conditions, %d E2 obligations (sources regenerated from %s)"
+            % (pid, tier, " phase 2 (deep, budgeted)" if tier == "thorough" else "", len(conds), len(obls), core.SRC))
+    run.execute(conds, obls, lenient=(tier == "thorough"))
     run.judge()
     return run.finish(plan["meta"])
 
